@@ -51,9 +51,16 @@ def make(spec):
     return cls(allow_inplace_modification=False, **kw)
 
 
-def step_type(state, name):
-    """Typing of the name fields (str -> list[str] -> list[NameParts]) and of month (str/int)."""
+def step_type(state, name, kw=None):
+    """Typing of the name fields (str -> list[str] -> list[NameParts]) and of month (str/int).
+    'unknown' = depends on the data (AddEnclosing with reuse leaves values recorded as no-enclosing untouched)."""
     a, m = state
+    if name == "AddEnclosingMiddleware":
+        if (kw or {}).get("reuse_previous_enclosing"):
+            return (a if a == "str" else "unknown", m if m == "str" else "unknown")
+        return ("str", "str")
+    if "unknown" in state and name in ("SeparateCoAuthors", "SplitNameParts", "MergeNameParts", "MergeCoAuthors", "RemoveEnclosingMiddleware"):
+        return None
     if name == "SeparateCoAuthors":
         return ("list", m) if a == "str" else None
     if name == "SplitNameParts":
@@ -68,8 +75,6 @@ def step_type(state, name):
         return (a, "int")
     if name in ("MonthAbbreviationMiddleware", "MonthLongStringMiddleware"):
         return (a, "str")
-    if name == "AddEnclosingMiddleware":
-        return ("str", "str")
     return state
 
 
@@ -201,7 +206,7 @@ def check(case, ctx):
     changing = False
     for spec in case["stack"]:
         name = spec[0]
-        state2 = step_type(state, name)
+        state2 = step_type(state, name, spec[1])
         if state2 is None:
             ctx.note("ill_typed_stack_skipped")
             break
